@@ -99,8 +99,52 @@ def main():
     return n, viol
 
 
+def late_sources(viol):
+    """bundled *sources* that start later than the composition (C01: their initial data must serve every pull the driver admits):
+    CsvReader whose first row is later than the start, CallbackGenerator with a later start; the consumer does not pull during connect"""
+    n = 0
+    for kind in ("CsvReader", "CallbackGenerator"):
+        for offset in (0, 3):
+            n += 1
+            d = tempfile.mkdtemp(prefix="verif_csv_")
+            try:
+                if kind == "CsvReader":
+                    path = os.path.join(d, "in.csv")
+                    with open(path, "w") as f:
+                        f.write("T;X\n")
+                        for k in range(12):
+                            f.write(f"{(T0 + (offset + k) * DAY).isoformat()};{float(offset + k)}\n")
+                    src = fm.components.CsvReader(path, time_column="T", outputs={"X": ""}, separator=";")
+                    oname = "X"
+                else:
+                    src = fm.components.CallbackGenerator({"X": (lambda t: float((t - T0).days), fm.Info(time=None, grid=fm.NoGrid(), units=""))},
+                                                          start=T0 + offset * DAY, step=DAY)
+                    oname = "X"
+                got = []
+                cons = fm.components.CallbackComponent(inputs={"In": fm.Info(time=None, grid=fm.NoGrid(), units="")}, outputs={},
+                                                       callback=lambda inp, t: (got.append((t, float(inp["In"].magnitude.reshape(-1)[0]))) if inp is not None else None) or {},
+                                                       start=T0, step=DAY, initial_pull=False)
+                comp = fm.Composition([src, cons], print_log=False, slot_memory_location=None)
+                src.outputs[oname] >> cons.inputs["In"]
+                try:
+                    with _guard.limit(120.0):
+                        comp.run(start_time=T0, end_time=T0 + 8 * DAY)
+                except Exception as e:  # noqa
+                    viol.append(f"{kind} starting {offset} d after the composition start, consumer without initial pull: run failed: {type(e).__name__}: {str(e)[:110]}")
+                    return n
+                if len(got) < 8:
+                    viol.append(f"{kind} starting {offset} d after the composition start: only {len(got)} of 8 pulls were served")
+                    return n
+            finally:
+                import shutil
+                shutil.rmtree(d, ignore_errors=True)
+    return n
+
+
 if __name__ == "__main__":
     n, v = main()
+    if not v:
+        n += late_sources(v)
     if "--json" in sys.argv:
         print(json.dumps({"evaluations": n, "distinct_nontrivial": n, "violations": [{"case": x} for x in v[:3]],
                           "rule": "time-stepped finam components with inputs, driven in a real Composition: every request during update() is for the announced next_time",
